@@ -23,6 +23,9 @@ def groups():
     for k, (fn, txt) in {1: ('cstl_slist_concat', 'concat on chain neighbourhoods of 0, 1, 2 and >= 3 nodes each (unknown middle as a sentinel, any count): the source chain follows the destination\'s last node, the tail becomes the source\'s last, source left empty with its own sentinel as tail'),
                          2: ('cstl_slist_swap', 'swap on chain neighbourhoods of 0, 1, 2 and >= 3 nodes each: chains, counts and offsets exchanged, the tail of an emptied side is its OWN head sentinel')}.items():
         G.append(Group('slist.step2.%s' % fn[11:], ['C13'], 'S', S, 'h_step2', sources=src, defines=['-DVF_STEP2=%d' % k], unwind=6, functions=[fn], what=txt, covers=['end']))
+    G.append(Group('slist.wrap', ['C13'], 'P', S, 'h_wrap', sources=src, defines=['-DVF_G_wrap'], replace=['__cstl_slist_insert_after', '__cstl_slist_erase_after'],
+                   functions=['cstl_slist_push_front', 'cstl_slist_push_back', 'cstl_slist_insert_after', 'cstl_slist_erase_after', 'cstl_slist_pop_front', 'cstl_slist_front', 'cstl_slist_back'],
+                   what='the loop-free public wrappers hand the chain primitives exactly the right predecessor and node (push_back: the tail pointer; element/node conversion by the list\'s offset); pop_front/front/back of an empty list return NULL and touch nothing; any list size'))
     common = 'representation invariant (count==0 <=> t==&h <=> h.n==NULL, t->n==NULL, t is the last node reached, count nodes), ' \
              'traversal == reference sequence, front/back/size agree, and a spare push_back lands after the true last element, after every operation: '
     B = {
